@@ -105,6 +105,12 @@ static void pairs(vh::Ctx& ctx, int outer_level, int inner_level)
                 if (!eq_scaled(AB, r, 4) && ++fails_here <= 64)
                     ctx.fail(vh::S() << TName<T>::name() << "/A=" << mstr(A) << "/B=" << mstr(B), "product-differs-from-reference", "A*B=" + mstr(AB));
                 { auto M = A; M *= B; if (!eq(M, AB) && ++fails_here <= 64) ctx.fail(vh::S() << TName<T>::name() << "/A=" << mstr(A) << "/B=" << mstr(B), "operator*=-differs-from-operator*", ""); }
+                if (bi == 0)
+                {
+                    // the same object on both sides (in-place squaring): the right-hand operand aliases the object being overwritten
+                    auto AA = A * A; auto M = A; M *= M; ++ctx.evaluations; ++ctx.witness["self_multiplication"];
+                    if (!eq(M, AA) && ++fails_here <= 64) ctx.fail(vh::S() << TName<T>::name() << "/A=" << mstr(A) << "/self", "operator*=-with-itself-differs-from-A*A", "A*=A gives " + mstr(M) + ", A*A = " + mstr(AA));
+                }
                 for (auto const& pt : PTS)
                 {
                     gil::point<std::ptrdiff_t> p(pt[0], pt[1]);
